@@ -19,7 +19,9 @@ from . import h5util as H
 
 ID = "C05"
 MOD = "harness.props.c05"
-LEAN = dict(modules=[], theorems=[], drivers=["drv_mrg"])
+LEAN = dict(modules=["MetadorModel.Props.C05"],
+            theorems=["MetadorModel.C05." + n for n in ['merge_identity', 'merge_defined', 'merge_continues_chain', 'merge_is_base', 'next_patch_follows_merged']],
+            drivers=["drv_mrg"])
 
 
 def _hashes(d):
